@@ -395,6 +395,20 @@ class HomogDomain(Domain):
         return TOP
 
     def compare(self, interp, node, vals):
+        # a quantity that scales with the image (degree != 0) compared with a non-zero absolute number: the outcome changes under positive rescaling of the
+        # input (`var > 0` is scale-free, `var > eps` is not)
+        try:
+            if len(vals) == 2 and len(node.ops) == 1 and isinstance(node.ops[0], (ast.Lt, ast.LtE, ast.Gt, ast.GtE)):
+                for v, o, on in ((vals[0], vals[1], node.comparators[0]), (vals[1], vals[0], node.left)):
+                    if isinstance(v, HP):
+                        d = poly_degree(v)
+                        absolute = (isinstance(o, Const) and isinstance(o.value, (int, float)) and not isinstance(o.value, bool) and o.value != 0) or \
+                            any(t in norm_src(on) for t in ("finfo", ".eps", "EPS", "1e-"))
+                        if d is not None and any(x != 0 for x in d) and absolute:
+                            self.events.append(("degree", interp.cur_fn, node, f"`{norm_src(node)[:60]}` compares a quantity of homogeneity degree "
+                                                f"{tuple(map(str, d))} with an absolute threshold: the result depends on the intensity scale of the input"))
+        except Exception:
+            pass
         for v in vals:
             if isinstance(v, HP) and v.image:
                 return ("mask", v)
